@@ -267,9 +267,19 @@ func (g *FnGen) doCall(ci ssa.CallInstruction, v ssa.Value) {
 		g.assume(guard, g.typeInvTerm(a, g.st), "typeinv-after-publish")
 	}
 	if ct != nil {
+		eg := guard
+		if len(ct.Domain) > 0 {
+			// the callee's functional postconditions hold on its domain only
+			var parts []string
+			for _, d := range ct.Domain {
+				ctx := &EvalCtx{g: g, env: env, st: pre, oldSt: pre, oldEnv: env, guard: guard}
+				parts = append(parts, g.evalBool(d.E, ctx))
+			}
+			eg = and(guard, g.def("Wcallee", sortBool, and(parts...)))
+		}
 		for i, e := range ct.Ensures {
 			ctx := &EvalCtx{g: g, env: env, st: g.st, oldSt: pre, oldEnv: env, guard: guard}
-			g.assumeClause(guard, e.E, ctx, fmt.Sprintf("ensures:%s:%s", name, clauseLabel(e, i)))
+			g.assumeClause(eg, e.E, ctx, fmt.Sprintf("ensures:%s:%s", name, clauseLabel(e, i)))
 		}
 	}
 }
